@@ -64,7 +64,12 @@ class Interp(object):
         if isinstance(e, ast.Constant):
             return ("const", e.value)
         if isinstance(e, ast.Name):
-            return env.get(e.id, OTHER)
+            if e.id in env:
+                return env[e.id]
+            v = self.fold(e, env)
+            if v is not UNKNOWN and isinstance(v, (str, int, tuple, list, dict, bool)):
+                return ("const", tuple(v) if isinstance(v, list) else v)
+            return OTHER
         if isinstance(e, ast.Attribute):
             b = self.ev(e.value, env, fn, depth)
             if isinstance(b, NS):
@@ -304,10 +309,9 @@ class Interp(object):
                     cenv[n_] = v
                 cenv.update(kw_v)
                 self.worker_calls.append(callee.qualname)
-                try:
-                    self.block(callee.node.body, cenv, callee, depth + 1)
-                except Rejected:
-                    raise
+                res = self.block(callee.node.body, cenv, callee, depth + 1)
+                if res and all(fl == REJECT for _, fl in res):
+                    raise Rejected()  # the callee never returns in this state (usage error / raise on every path)
         v = self.fold(e, env)
         if v is not UNKNOWN and isinstance(v, (str, int, tuple, bool)):
             return ("const", v)
@@ -394,7 +398,10 @@ class Interp(object):
     def stmt(self, s, env, fn, depth):
         env = dict(env)
         if isinstance(s, ast.Assign):
-            v = self.ev(s.value, env, fn, depth)
+            try:
+                v = self.ev(s.value, env, fn, depth)
+            except Rejected:
+                return [(env, REJECT)]
             for t in s.targets:
                 if isinstance(t, (ast.Name, ast.Tuple, ast.List)):
                     self.assign(t, v, env)
